@@ -16,8 +16,11 @@ from ..model import unparse
 class Flow:
     """Bindings of one function body (normally a ctx.view(...) node: private helpers expanded, constants substituted)."""
 
-    def __init__(self, fn_node):
+    def __init__(self, fn_node, record_fields=None):
+        """record_fields(call) -> the field names when `call` constructs a small record (NamedTuple / dataclass), else None"""
         self.node = fn_node
+        self.record_fields = record_fields
+        self._deferred: list = []  # tuple targets bound from something that is not a tuple display: resolved once all bindings are known
         a = fn_node.args
         self.params = [x.arg for x in a.posonlyargs + a.args + a.kwonlyargs]
         self.kwarg = a.kwarg.arg if a.kwarg else None
@@ -53,6 +56,57 @@ class Flow:
                 for t in n.targets:
                     if isinstance(t, ast.Subscript) and isinstance(t.value, ast.Name):
                         self.shrunk.add(t.value.id)
+        for target, value in self._deferred:
+            rows = self.unpacked(value, len(target.elts))
+            if rows is None:
+                for x in ast.walk(target):
+                    if isinstance(x, ast.Name):
+                        self.opaque.add(x.id)
+            else:
+                for row in rows:
+                    for t, v in zip(target.elts, row):
+                        self._bind(t, v)
+
+    def _fields_of(self, o):
+        """[(field name | None, value expr)] of a tuple display / a record construction, else None"""
+        if isinstance(o, (ast.Tuple, ast.List)) and not any(isinstance(e, ast.Starred) for e in o.elts):
+            return [(None, e) for e in o.elts]
+        if isinstance(o, ast.Call) and self.record_fields is not None:
+            names = self.record_fields(o)
+            if names and not any(isinstance(a, ast.Starred) for a in o.args) and all(k.arg in names for k in o.keywords):
+                given = dict(zip(names, o.args))
+                given.update({k.arg: k.value for k in o.keywords})
+                if all(nm in given for nm in names):
+                    return [(nm, given[nm]) for nm in names]
+        return None
+
+    def unpacked(self, value, n):
+        """the rows of n expressions that `a, b = value` may bind positionally — value followed to tuple displays / record
+        constructions (CopyAttributes(x, y)); None when some possible value is anything else"""
+        rows = []
+        for o in self.origins(value):
+            fs = self._fields_of(o)
+            if fs is None or len(fs) != n:
+                return None
+            rows.append([v for _nm, v in fs])
+        return rows or None
+
+    def field_values(self, expr, _seen=None):
+        """for `<record>.<field>`: the expressions the field was constructed from, else None"""
+        if not (isinstance(expr, ast.Attribute) and self.record_fields is not None and isinstance(expr.value, ast.Name)):
+            return None
+        if _seen is not None and ("field", expr.value.id) in _seen:
+            return None
+        seen = set() if _seen is None else _seen
+        seen.add(("field", expr.value.id))
+        out = []
+        for o in self.origins(expr.value, True, set(x for x in seen if isinstance(x, str))):
+            fs = self._fields_of(o) if isinstance(o, ast.Call) else None
+            hit = next((v for nm, v in fs or [] if nm == expr.attr), None)
+            if hit is None:
+                return None
+            out.append(hit)
+        return out or None
 
     def _bind(self, target, value):
         if isinstance(target, ast.Name):
@@ -61,6 +115,8 @@ class Flow:
             if isinstance(value, (ast.Tuple, ast.List)) and len(value.elts) == len(target.elts) and not any(isinstance(e, ast.Starred) for e in list(value.elts) + list(target.elts)):
                 for t, v in zip(target.elts, value.elts):
                     self._bind(t, v)
+            elif not any(isinstance(e, ast.Starred) for e in target.elts) and all(isinstance(e, ast.Name) for e in target.elts):
+                self._deferred.append((target, value))
             else:
                 for x in ast.walk(target):
                     if isinstance(x, ast.Name):
@@ -102,6 +158,12 @@ class Flow:
             return out
         if isinstance(expr, ast.NamedExpr):
             return self.origins(expr.value, skip_none, seen)
+        if isinstance(expr, ast.Attribute):
+            vals = self.field_values(expr, seen)
+            if vals is not None:
+                for v in vals:
+                    out += self.origins(v, skip_none, seen)
+                return out
         if skip_none and isinstance(expr, ast.Constant) and expr.value is None:
             return out
         return [expr]
@@ -134,6 +196,12 @@ class Flow:
                     for t, v in zip(target.elts, value.elts):
                         binds(t, v, out)
                 else:
+                    rows = None if isinstance(value, tuple) else self.unpacked(value, len(target.elts))
+                    if rows is not None and all(isinstance(e, ast.Name) for e in target.elts):
+                        for row in rows:
+                            for t, v in zip(target.elts, row):
+                                binds(t, v, out)
+                        return
                     for x in ast.walk(target):
                         if isinstance(x, ast.Name):
                             out.append((x.id, key(value if isinstance(value, tuple) else ("opaque",))))
@@ -225,6 +293,12 @@ class Flow:
             return out
         if isinstance(expr, ast.NamedExpr):
             return self.origins_at(expr.value, skip_none, seen)
+        if isinstance(expr, ast.Attribute):
+            vals = self.field_values(expr, seen)
+            if vals is not None:
+                for v in vals:
+                    out += self.origins_at(v, skip_none, seen)
+                return out
         if skip_none and isinstance(expr, ast.Constant) and expr.value is None:
             return out
         return [expr]
@@ -548,3 +622,101 @@ def top_types(ann) -> set:
     if isinstance(ann, ast.Attribute):
         return {ann.attr}
     return set()
+
+
+# ------------------------------------------------------------------------------------------------ local closures
+def inline_closures(fn_node):
+    """A copy of the function in which calls `x = f(a, b)` / `f(a)` / `return f(a)` to a LOCAL function `def f(p, q): ...` (a closure
+    defined in the body: no decorators, plain positional parameters, no generator, not recursive) are replaced by the closure's body —
+    parameters bound by assignments, its own locals renamed apart, `return` turned into an assignment — and the definition removed
+    when nothing else refers to it.  The closure's free variables are the enclosing function's locals, so the result reads like the
+    loop body the closure was extracted from.  Uses the normaliser's return elimination (read only)."""
+    import copy
+
+    from ..normalize import _CannotInline, _bound_names, _eliminate_returns
+
+    node = copy.deepcopy(fn_node)
+    counter = [0]
+
+    def local_defs(body):
+        return {st.name: st for st in body if isinstance(st, ast.FunctionDef)}
+
+    def simple(f):
+        a = f.args
+        return not (f.decorator_list or a.vararg or a.kwarg or a.kwonlyargs or a.defaults or a.posonlyargs) \
+            and not any(isinstance(x, (ast.Yield, ast.YieldFrom, ast.Global, ast.Nonlocal)) for st in f.body for x in ast.walk(st)) \
+            and not any(isinstance(x, ast.Name) and x.id == f.name for st in f.body for x in ast.walk(st))
+
+    def expand(call, f, taken):
+        counter[0] += 1
+        tag = f"__c{counter[0]}"
+        own = _bound_names(f)
+        ren = {nm: nm + tag for nm in own}
+
+        class Ren(ast.NodeTransformer):
+            def visit_Name(self, n):
+                return ast.copy_location(ast.Name(id=ren[n.id], ctx=n.ctx), n) if n.id in ren else n
+
+            def visit_FunctionDef(self, n):
+                return n  # deeper closures keep their own scope
+
+        body = [Ren().visit(copy.deepcopy(st)) for st in f.body
+                if not (isinstance(st, ast.Expr) and isinstance(st.value, ast.Constant) and isinstance(st.value.value, str))]
+        pre = [ast.copy_location(ast.Assign(targets=[ast.Name(id=ren[p.arg], ctx=ast.Store())], value=a, lineno=call.lineno), call)
+               for p, a in zip(f.args.args, call.args)]
+        ret = f"_ret{tag}"
+        stmts, _t = _eliminate_returns(body, ret, call)
+        init = ast.copy_location(ast.Assign(targets=[ast.Name(id=ret, ctx=ast.Store())], value=ast.Constant(value=None), lineno=call.lineno), call)
+        out = pre + [init] + stmts
+        for st in out:
+            for x in ast.walk(st):
+                if not hasattr(x, "lineno"):
+                    ast.copy_location(x, call)
+        return out, ret
+
+    def block(stmts, closures):
+        closures = dict(closures)
+        closures.update({k: v for k, v in local_defs(stmts).items() if simple(v)})
+        out = []
+        for st in stmts:
+            for fld in ("body", "orelse", "finalbody"):
+                blk = getattr(st, fld, None)
+                if isinstance(blk, list) and blk and isinstance(blk[0], ast.stmt) and not isinstance(st, (ast.FunctionDef, ast.AsyncFunctionDef, ast.ClassDef)):
+                    setattr(st, fld, block(blk, closures))
+            for h in getattr(st, "handlers", []) or []:
+                h.body = block(h.body, closures)
+            host = st.value if isinstance(st, (ast.Assign, ast.AnnAssign, ast.Expr, ast.Return)) else None
+            if isinstance(host, ast.Call) and isinstance(host.func, ast.Name) and host.func.id in closures and not host.keywords \
+                    and not any(isinstance(a, ast.Starred) for a in host.args) and len(host.args) == len(closures[host.func.id].args.args):
+                try:
+                    exp, ret = expand(host, closures[host.func.id], None)
+                except _CannotInline:
+                    out.append(st)
+                    continue
+                exp = block(exp, closures)
+                out += exp
+                if isinstance(st, ast.Expr):
+                    continue
+                st.value = ast.copy_location(ast.Name(id=ret, ctx=ast.Load()), host)
+            out.append(st)
+        return out
+
+    node.body = block(node.body, {})
+
+    # drop the definitions nothing refers to any more
+    def prune(stmts):
+        used = {x.id for st in ast.walk(node) for x in [st] if isinstance(x, ast.Name)}
+        keep = []
+        for st in stmts:
+            if isinstance(st, ast.FunctionDef) and st.name not in used:
+                continue
+            for fld in ("body", "orelse", "finalbody"):
+                blk = getattr(st, fld, None)
+                if isinstance(blk, list) and blk and isinstance(blk[0], ast.stmt) and not isinstance(st, (ast.FunctionDef, ast.AsyncFunctionDef, ast.ClassDef)):
+                    setattr(st, fld, prune(blk) or [ast.copy_location(ast.Pass(), st)])
+            keep.append(st)
+        return keep
+
+    node.body = prune(node.body) or [ast.Pass()]
+    ast.fix_missing_locations(node)
+    return node
